@@ -81,7 +81,28 @@ def compose(g1, g2):
             "use": g1["use"] + "+" + g2["use"], "k": "%s+%s" % (g1["k"], g2["k"]), "m": m}
 
 
-def sample(gen, cfgs_a, n, sd, stratify=True, pairs=True):
+def same_op_pairs(gen, n, sd):
+    """n compositions of two models with the SAME root operator and domain pattern but different uses, in both
+    orders: the constraint lists of one type then hold constraints with different fates (nested and delivered,
+    root and turned into bounds / unused, reformulated)."""
+    rnd = random.Random(sd)
+    groups = {}
+    for g in gen:
+        if g["kind"] in ("num", "log"):
+            groups.setdefault((g["kind"], g["op"], tuple(g["pat"])), []).append(g)
+    keys = sorted(k for k, v in groups.items() if len({g["use"] for g in v}) > 1)
+    out = []
+    while len(out) < n:
+        v = groups[keys[rnd.randrange(len(keys))]]
+        g1, g2 = rnd.sample(v, 2)
+        if g1["use"] == g2["use"]:
+            continue
+        out.append(compose(g1, g2))
+        out.append(compose(g2, g1))
+    return out[:n]
+
+
+def sample(gen, cfgs_a, n, sd, stratify=True, pairs=True, pair_every=4):
     """n (model, config) pairs; every operator x use and every operator x pattern at least once when n allows."""
     cfgs, a = cfgs_a
     rnd = random.Random(sd)
@@ -109,7 +130,7 @@ def sample(gen, cfgs_a, n, sd, stratify=True, pairs=True):
     glist = []
     for j, i in enumerate(picks):
         g = gen[i]
-        if pairs and j % 4 == 3 and g["kind"] in ("num", "log", "nest", "cone"):
+        if pairs and j % pair_every == pair_every - 1 and g["kind"] in ("num", "log", "nest", "cone"):
             g = compose(g, gen[rnd.choice(bypat[tuple(g["pat"])])])
         glist.append(g)
     cases = []
